@@ -69,6 +69,8 @@ pub fn run(a: &Args) {
     let mut maxlen = 0usize;
     let load = a.get("load").is_some();
     let chop = a.get("chop").is_some();
+    let breaks = a.get("breaks").is_some();
+    let mut vname = "";
     let mut nreps = 0usize;
     for v in reps {
         nreps += 1;
@@ -97,11 +99,20 @@ pub fn run(a: &Args) {
         } else {
             None
         };
-        for (be, variant) in [(Backend::Str, false), (Backend::Buf, false), (Backend::Str, true), (Backend::Buf, true)] {
-            if variant && chopped.is_none() {
+        // layout variants: the same stream with CR LF / lone CR line breaks denotes the same events (line breaks inside
+        // scalars are normalised to LF)
+        let brk = breaks && !text.contains('\r') && text.contains('\n');
+        for (be, variant) in [(Backend::Str, 0), (Backend::Buf, 0), (Backend::Str, 1), (Backend::Buf, 1), (Backend::Str, 2), (Backend::Buf, 2), (Backend::Str, 3), (Backend::Buf, 3)] {
+            if (variant == 1 && chopped.is_none()) || (variant >= 2 && !brk) {
                 continue;
             }
-            let text = if variant { chopped.clone().unwrap() } else { text.clone() };
+            let text = match variant {
+                1 => chopped.clone().unwrap(),
+                2 => text.replace('\n', "\r\n"),
+                3 => text.replace('\n', "\r"),
+                _ => text.clone(),
+            };
+            let variant = variant > 0 && { vname = ["", "final line break removed", "CR LF line breaks", "CR line breaks"][variant]; true };
             let r = if be == Backend::Str { run_str(&text) } else { run_buf(&text) };
             runs += 1;
             let why = if let Some(p) = &r.panic {
@@ -132,7 +143,7 @@ pub fn run(a: &Args) {
             }
             if !why.is_empty() {
                 bad += 1;
-                let b = json!({"t": text, "be": be.name(), "variant": if variant { "final line break removed" } else { "" }, "why": why, "tape": v["tape"], "info": v["info"], "model_agrees_with_renderer": v["model"],
+                let b = json!({"t": text, "be": be.name(), "variant": if variant { vname } else { "" }, "why": why, "tape": v["tape"], "info": v["info"], "model_agrees_with_renderer": v["model"],
                     "real": r.evs.iter().map(|e| json!([e.k, e.v, e.style, e.aid])).collect::<Vec<_>>(), "err": r.err.as_ref().map(|e| e.msg.clone())});
                 if let Some(w) = bad_out.as_mut() {
                     writeln!(w, "{b}").unwrap();
